@@ -309,7 +309,9 @@ where
 
   fn close_internal(&self) {
     if let Some(dispatcher) = self.dispatcher.upgrade() {
-      let topics_to_unsubscribe: Vec<K> = self.subscriptions.lock().drain().collect();
+      // Clone the topics instead of draining the set: `unsubscribe` itself removes each topic from
+      // the local set and returns early for a topic it does not find there.
+      let topics_to_unsubscribe: Vec<K> = self.subscriptions.lock().iter().cloned().collect();
       for topic in topics_to_unsubscribe {
         self.unsubscribe(&topic);
       }
